@@ -2,7 +2,11 @@
 
 Tie to the code (model: coq/theories/Artifact.v, theorems: coq/props/C19.v):
   stream `ops`  : an operation sequence (write / load / remove / replace / clear_cache / re-open) on a REAL HDF file in
-                  a per-run temporary directory.  After EVERY operation the harness records the outcome, artifact.keys,
+                  a per-run temporary directory.  Half of the histories run on handles opened WITH filter_terms (row terms
+                  over existing / value / absent columns, draw terms; 1-3 filters per case, switched at re-opening, one
+                  of them built to bite on a table of the case) while the observer - the second Artifact - always reads
+                  UNFILTERED: the handle's loads must equal filter(stored) (computed by the harness: apply_filter), the
+                  stored content must stay whole whatever goes through the filtered handle.  After EVERY operation the harness records the outcome, artifact.keys,
                   hdf.get_keys(path), the keys of a second Artifact opened on the same path and what that second
                   artifact loads (every key ever used in the case at "full" observation points - after every rejected
                   operation, remove, replace and at the end - otherwise the operation's key and one more).  The Coq
@@ -52,12 +56,15 @@ CLAIM = {
             "check - overlapping keys, put-failing frames in write and in replace, leftover empty groups - were repaired in "
             "/repo: 4bbd9e87, 29349355, 4cf26c03, d4f70230; their witnesses are corpus cases). Trusted: the model's transcription, "
             "HDF5/PyTables/pandas behaviour as modelled (validated on the explored sequences only), canonicalisation of "
-            "loaded data, single writer per file, re-writing loaded old data reproduces the node (replace's restore). "
+            "loaded data, single writer per file, re-writing loaded old data reproduces the node (replace's restore), the "
+            "harness's own evaluation of filter terms (apply_filter). "
             "Content of load('metadata.keyspace') is not modelled; returned objects are the cached ones (aliasing not "
             "covered); the draw filter is modelled as column selection (C19_draw_filter_columns), malformed draw terms are "
             "refused at construction and not generated.",
 }
-RULE = ("ops: 45% of the cases start with 2-4 sibling keys in ONE hdf group (/type/name, /type or /metadata), mostly JSON "
+RULE = ("ops: 50% of the cases use handles opened with 1-3 filters (alternating at re-openings; 70% of those contain a scripted "
+        "write / load x2 / replace-with-put-failing-frame | clear_cache | replace / load / re-open unfiltered / load on a table "
+        "the filter is built to restrict); 45% of the cases start with 2-4 sibling keys in ONE hdf group (/type/name, /type or /metadata), mostly JSON "
         "values, followed by remove / replace of one of them and loads of the survivors; then / otherwise "
         "sequences of 3-10 (quick) / 3-25 (thorough) operations over a pool of 5-8 two- and three-part keys (two-part "
         "keys that are prefixes of three-part keys included) + the reserved key + a key below the reserved node + "
